@@ -2,3 +2,4 @@ import Props.C01
 import Props.C02
 import Props.C04
 import Props.C06
+import Props.C07
